@@ -617,8 +617,56 @@ fn udp_interface_sweep(report: &Report) -> usize {
     cases
 }
 
+/// One real Pool + Votor core, genuine (validly aggregated) certificates of every kind for slots of
+/// three windows plus blocks and timeouts, in every order up to the depth bound: certificates are
+/// the one input any peer can replay at any time, in any order, to a node in any state. No order
+/// may crash the voting core.
+fn cert_order_sweep(report: &Report, tier: Tier) -> Value {
+    use crate::engine::{BfsLimits, bfs};
+    use crate::nodesys::{NodeAlphabet, NodeSys};
+    use crate::pooldrv::{Blk, CK, GENESIS};
+    use crate::poolsys::cert;
+    let x3 = std::sync::Arc::new(crate::common::make_epoch(&[10, 45, 45]));
+    let b = |slot: u64, idx: u8| Blk { slot, idx };
+    let mut foreign = Vec::new();
+    for s in [1u64, 3, 5, 9] {
+        foreign.push(cert(CK::Notar, s, 0, &[1, 2], &[]));
+        foreign.push(cert(CK::Final, s, 0, &[1, 2], &[]));
+    }
+    for s in [2u64, 5, 9] {
+        foreign.push(cert(CK::FastFinal, s, 0, &[1, 2], &[]));
+    }
+    for s in [1u64, 4, 8] {
+        foreign.push(cert(CK::Skip, s, 0, &[1], &[2]));
+    }
+    foreign.push(cert(CK::NotarFb, 3, 1, &[1], &[2]));
+    foreign.push(cert(CK::NotarFb, 6, 1, &[1], &[2]));
+    let alpha = NodeAlphabet {
+        foreign,
+        blocks: vec![(b(1, 0), GENESIS), (b(5, 0), b(3, 0)), (b(9, 0), b(5, 0))],
+        invalid: vec![],
+        first_shreds: vec![],
+        windows: vec![0, 4],
+        forge: vec![],
+    };
+    let mut out = Vec::new();
+    for lag in tier.pick(vec![0usize], vec![0, 1]) {
+        let mut sys = NodeSys::new(&format!("genuine-certificates-in-any-order-lag{lag}"), x3.clone(), 0, alpha.clone(), lag);
+        sys.crash_focus = Some("C10");
+        let limits = BfsLimits::new(tier.pick(4, 6), tier.pick(400_000, 20_000_000), tier.pick(15, 200));
+        let st = bfs(&sys, &sys.name, &limits, report);
+        println!("  {}: states={} transitions={} depth_completed={} capped={:?}", sys.name, st.states, st.transitions, st.depth_completed, st.capped);
+        let mut j = st.to_json();
+        j["system"] = json!(sys.name);
+        j["alphabet"] = json!(sys.alpha.foreign.iter().map(|o| o.show()).collect::<Vec<_>>());
+        out.push(j);
+    }
+    json!(out)
+}
+
 pub fn run(tier: Tier) -> i32 {
     let report = Report::new("C10", tier, "fault_enumeration");
+    let cert_orders = cert_order_sweep(&report, tier);
     let udp_cases = udp_interface_sweep(&report);
     println!("  udp interface sweep: {udp_cases} datagrams");
     let total_ms = 12_000u64;
@@ -699,6 +747,7 @@ pub fn run(tier: Tier) -> i32 {
         "udp_interface_datagrams": udp_cases,
         "rule": "4 real Alpenglow nodes + 1 attacker validator (19% stake, own leader windows) in virtual time; each hostile item of the menu (attacker-signed votes at edge slots incl. u64::MAX and the 2-epoch boundary, slashable pairs, unknown signers, replayed and mutated certificates, validly signed malformed blocks for the attacker's own next window and for a far-future window, contradictory last flags in both orders, conflicting slices, equivocation in the last window of the slot space, slice index 1023, raw slices with odd / zero / over-long / mixed shard sizes and non-codeword coding shreds under a validly signed root, tag-flipped / corrupted genuine shreds, shreds for the victim's own window, repair requests with unknown senders and boundary indices, unsolicited / mismatched repair responses, transactions of 0/512/513/1480 bytes, floods of large ones and floods of thousands of 0/1-byte ones, garbage on all five interfaces) is injected alone at each phase (thorough: also ordered pairs across classes), plus the scripted hand-over equivocation of the attacker as previous leader; afterwards no task may have panicked and the victim must still vote, answer repair requests and finalize like the undisturbed run; every (item, phase) run is distinct and non-trivial; in addition the real UdpNetwork receive path (recvmmsg) on the loopback device gets datagrams of 23 sizes from 0 to 65000 bytes (around the 1500-byte receive buffer in particular) x 3 fill patterns between two honest votes, both of which must still be delivered",
         "exhaustive": true,
+        "certificate_order_sweep": cert_orders,
         "menu_items": attacks.len(),
         "phases_ms": phases,
         "baseline_victim_finalized": baseline_fin,
